@@ -47,11 +47,18 @@ Example ex_three_readers :
   tonumber [48;48;49;48] None = Some (10, 0) /\ coerce [48;48;49;48] = Some (10, 0) /\ lex_numeral [48;48;49;48] = LNVal 10 0
   /\ tonumber [49;101;50] None = Some (1, 2) /\ lex_numeral [49;101] = LNReject /\ coerce [48;98;49;49] = None.
 Proof. repeat split; reflexivity. Qed.
-Example ex_radix : RadixNumeral 36 ([32] ++ [45] ++ [122; 90] ++ [13]) (-1 * radix_value 36 [122; 90] 0)
-                   /\ tonumber [32; 45; 122; 90; 13] (Some 36) = Some (-1295, 0) /\ in_int64 (-1295).
+Example ex_radix : RadixNumeral 36 ([32] ++ [45] ++ [] ++ [122; 90] ++ [13]) (-1 * radix_value 36 [122; 90] 0)
+                   /\ tonumber [32; 45; 122; 90; 13] (Some 36) = Some (-1295, 0).
 Proof.
-  split; [|split; [reflexivity|unfold in_int64; lia]].
+  split; [|reflexivity].
   apply Radix; try reflexivity; try constructor. discriminate.
+Qed.
+Example ex_radix_hex : RadixNumeral 16 ([] ++ [43] ++ [48; 88] ++ [102; 102; 102; 102; 102; 102; 102; 102; 102; 102; 102; 102; 102; 102; 102; 102] ++ [])
+                                       (1 * radix_value 16 [102; 102; 102; 102; 102; 102; 102; 102; 102; 102; 102; 102; 102; 102; 102; 102] 0)
+                       /\ tonumber [43; 48; 88; 102; 102; 102; 102; 102; 102; 102; 102; 102; 102; 102; 102; 102; 102; 102; 102] (Some 16) = Some (18446744073709551615, 0).
+Proof.
+  split; [|reflexivity].
+  apply Radix; try reflexivity; try constructor; try reflexivity. discriminate.
 Qed.
 
 (* ---- integers as text ---- *)
